@@ -60,8 +60,9 @@ fn gen_msg(rng: &mut Rng, strict: bool) -> Item {
         "d_hello_verify" => gen::d_hello_verify(rng),
         "server_hello" => {
             let mut m = gen::handshake(rng, "server_hello", budget);
-            // DTLS ServerHello always has the optional extension block form
-            m.set("ver", Val::Int(*rng.pick(&[0xfefdu64, 0xfeff, 0x0303])));
+            // DTLS ServerHello always has the optional extension block form, whatever the version says
+            let v = if rng.chance(1, 3) { gen::version(rng) as u64 } else { *rng.pick(&[0xfefdu64, 0xfeff, 0x0303, 0x0100, 0x0300]) };
+            m.set("ver", Val::Int(v));
             m
         }
         k => gen::handshake(rng, k, budget),
@@ -231,6 +232,16 @@ pub fn generate(rng: &mut Rng, prop: Prop) -> Scenario {
                 seqno = (seqno + 1) & 0xffff_ffff_ffff;
                 let ms = seq_base.wrapping_add(100 + rng.below(50) as u16);
                 recs.push(Rec { ctype: 22, ver, epoch, seqno, content: Content::Synth(vec![(t, total, ms, off, rng.bytes(flen))]), declen: None });
+            }
+            if rng.chance(1, 12) {
+                // header with fragment_length > length at offset 0: not a fragment; the message is its
+                // first `length` bytes (opaque kinds only, so the expected body is unambiguous)
+                let total = rng.small_len(40) as u64;
+                let extra = rng.urange(1, 8);
+                let t = *rng.pick(&[14u8, 16]);
+                seqno = (seqno + 1) & 0xffff_ffff_ffff;
+                let ms = seq_base.wrapping_add(200 + rng.below(50) as u16);
+                recs.push(Rec { ctype: 22, ver, epoch, seqno, content: Content::Synth(vec![(t, total, ms, 0, rng.bytes(total as usize + extra))]), declen: None });
             }
             if rng.chance(1, 8) {
                 // a ChangeCipherSpec or alert record inside the flight
@@ -1071,7 +1082,7 @@ fn record_oracle(ctx: &mut Ctx, scn: &Scenario, lr: &LRec, p: &PRec, sub: &[u8])
         // handshake record: every message's 12-byte header verbatim, fragment predicate and body
         let all_ok = lr.frags.iter().all(|f| {
             let is_frag = f.off > 0 || f.len < f.total;
-            is_frag || (f.m != usize::MAX && SUPPORTED.contains(&scn.items[f.m].kind.as_str()))
+            is_frag || (f.m != usize::MAX && SUPPORTED.contains(&scn.items[f.m].kind.as_str())) || (f.m == usize::MAX && matches!(f.mtype, 14 | 16))
         });
         if !all_ok {
             return false; // an unfragmented message of a kind the property does not list: unconstrained
@@ -1123,6 +1134,16 @@ fn record_oracle(ctx: &mut Ctx, scn: &Scenario, lr: &LRec, p: &PRec, sub: &[u8])
                 match m.frag {
                     Some(at) if rel_is(at, want_at.0, want_at.1) => {}
                     other => ctx.violate(Prop::C10, "dtls/fragment-body", || format!("message {}: Fragment body at (offset, len) {:?} of the record, expected {:?} (exactly fragment_length opaque bytes)", i, other, want_at)),
+                }
+            } else if f.m == usize::MAX {
+                // synthetic message with fragment_length >= length at offset 0 (opaque kinds)
+                let want_kind = match f.mtype {
+                    14 => "server_done",
+                    16 => "client_key_exchange",
+                    _ => "",
+                };
+                if !want_kind.is_empty() && (m.body.kind != want_kind || m.body.b("body").len() != f.total) {
+                    ctx.violate(Prop::C10, format!("dtls/body/{}", want_kind), || format!("message {}: header length {} with fragment_length {} at offset 0: body decoded as `{}` with {} bytes, expected `{}` with exactly {} bytes", i, f.total, f.len, m.body.kind, m.body.b("body").len(), want_kind, f.total));
                 }
             } else if f.m != usize::MAX && !val::same(&m.body, &scn.items[f.m]) {
                 let sent = &scn.items[f.m];
